@@ -82,7 +82,20 @@ func execHmacHistory(o *out, f [][]int) []int {
 					al.put(h)
 				}
 				key = bytesOf(op[1:])
-				h = al.acquire(key)
+				// the key is handed over as the front of a larger buffer whose tail belongs to the caller (a record
+				// buffer holding key and message back to back): nothing behind the key is touched
+				kb := make([]byte, len(key)+96)
+				copy(kb, key)
+				for k := len(key); k < len(kb); k++ {
+					kb[k] = 0xC3
+				}
+				h = al.acquire(kb[:len(key)])
+				for k := len(key); k < len(kb); k++ {
+					if kb[k] != 0xC3 {
+						o.fail("acquire-writes-behind-the-key", line())
+						break
+					}
+				}
 				written = nil
 			case 2:
 				p := bytesOf(op[1:])
@@ -221,6 +234,49 @@ func runC18(o *out, thorough bool, r *rng, _ []string) map[string]interface{} {
 		stun.VerifPutSHA1(h1)
 		stun.VerifPutSHA1(h2)
 		o.count("pool-hygiene")
+	}
+	// MESSAGE-INTEGRITY over a Message whose bytes 4..8 are not the magic cookie (a hand-built or RFC 3489-style
+	// header): still plain HMAC-SHA1 over the text
+	for i := 0; i < 60; i++ {
+		key := r.hmacKey()
+		m := stun.New()
+		_ = m.Build(stun.BindingRequest, stun.TransactionID, stun.NewSoftware(string(r.bytes(r.intn(70)))))
+		copy(m.Raw[4:8], r.bytes(4))
+		if err := stun.MessageIntegrity(key).AddTo(m); err != nil {
+			continue
+		}
+		off := len(m.Raw) - 24
+		text := append([]byte(nil), m.Raw[:off]...)
+		ref := hmac.New(sha1.New, key)
+		ref.Write(text)
+		if !bytes.Equal(ref.Sum(nil), m.Raw[off+4:]) {
+			o.fail("hmac-differs-from-crypto/hmac", fmt.Sprintf("x MESSAGE-INTEGRITY added to a message whose header cookie is %x: %s key %s", m.Raw[4:8], fHex(m.Raw), fHex(key)))
+		}
+		o.count("integrity-without-magic-cookie")
+	}
+	// a state handed to the wrong pool is refused (the library panics); whatever the caller does about that
+	// panic, the pools keep handing out states of their own algorithm
+	for i := 0; i < 10; i++ {
+		h256 := stun.VerifAcquireSHA256([]byte("k"))
+		guarded(func() { stun.VerifPutSHA1(h256) })
+		h1 := stun.VerifAcquireSHA1([]byte("k"))
+		guarded(func() { stun.VerifPutSHA256(h1) })
+		for k := 0; k < 4; k++ {
+			key := r.hmacKey()
+			a, b := stun.VerifAcquireSHA1(key), stun.VerifAcquireSHA256(key)
+			msg := r.bytes(r.intn(100))
+			a.Write(msg)
+			b.Write(msg)
+			ra, rb := hmac.New(sha1.New, key), hmac.New(sha256.New, key)
+			ra.Write(msg)
+			rb.Write(msg)
+			if a.Size() != 20 || b.Size() != 32 || !bytes.Equal(a.Sum(nil), ra.Sum(nil)) || !bytes.Equal(b.Sum(nil), rb.Sum(nil)) {
+				o.fail("pool-hands-out-the-other-algorithm", fmt.Sprintf("x after a state was offered to the wrong pool (and refused): AcquireSHA1 gives size %d, AcquireSHA256 size %d", a.Size(), b.Size()))
+			}
+			stun.VerifPutSHA1(a)
+			stun.VerifPutSHA256(b)
+		}
+		o.count("wrong-pool-put")
 	}
 	// the key buffer belongs to the caller: overwritten in place between two uses of the same pooled object
 	for i := 0; i < 200; i++ {
